@@ -97,21 +97,19 @@ loop(F_CS, "CachedStore.invalidate_all", 1,
      inv=[
          ("visited-written-back", lambda L: _visited_written_back(L)),
          ("backing-store-only-receives-dirty-values", lambda L: _backing_frame(L)),
-     ])
+     ]).as_set = True
 
 
 def _visited_written_back(L):
-    """every dirty key enumerated so far has its cached value in the backing store.  Set mode (`for key in
-    self._dirty_keys`) speaks about L.visited; sequence mode (`for key in sorted(self._dirty_keys)`, the
-    C03 hash-seed repair) about the prefix L.seq[0:L.i]"""
+    """every dirty key enumerated so far has its cached value in the backing store.  The loop is enumerated as a
+    set (L.visited) both for `for key in self._dirty_keys` and for `for key in sorted(self._dirty_keys)` (the C03
+    hash-seed repair; `as_set` below): the order does not matter for this invariant, and z3 cannot carry it over
+    the positions of a sorted sequence"""
     b = L.self._backing_store
 
     def written(k):
         return implies(has(L.self._cache, k), has(b._data, k) & mk_bool(mval(b._data, k) == mval(L.self._cache, k)))
-    if hasattr(L, "visited"):
-        return forall(Str, lambda k: implies(contains(L.visited, k), written(k)))
-    i = L.i.t if hasattr(L.i, "t") else z3.IntVal(L.i)
-    return forall(Int, lambda j: implies((j >= 0) & mk_bool(j.t < i), written(Str.wrap(L.seq.term[j.t]))))
+    return forall(Str, lambda k: implies(contains(L.visited, k), written(k)))
 
 # CachedStore.flush: for key in list(self._dirty_keys): ... yield from backing.put ... ; the body yields, so
 # the whole heap may change in it (modifies="world"); the constant configuration is the frame.
